@@ -108,6 +108,19 @@ func (p *Parser) parseOperator() error {
 		return fmt.Errorf("empty operator at position %d", start)
 	}
 
+	// true, false and null are operands, not operators
+	switch operator {
+	case "true":
+		p.operandStack = append(p.operandStack, core.Bool(true))
+		return nil
+	case "false":
+		p.operandStack = append(p.operandStack, core.Bool(false))
+		return nil
+	case "null":
+		p.operandStack = append(p.operandStack, core.Null{})
+		return nil
+	}
+
 	// Create operation with current operand stack
 	operation := Operation{
 		Operator: operator,
@@ -167,9 +180,9 @@ func (p *Parser) parseOperand() (core.Object, error) {
 	// Boolean or null
 	if c == 't' || c == 'f' || c == 'n' {
 		// Check if it's actually an operator
-		// Peek ahead to see if followed by whitespace
+		// The keyword ends at whitespace or a delimiter (e.g. "true]")
 		end := p.pos
-		for end < len(p.data) && !isWhitespace(p.data[end]) {
+		for end < len(p.data) && !isWhitespace(p.data[end]) && !isDelimiter(p.data[end]) {
 			end++
 		}
 		token := string(p.data[p.pos:end])
